@@ -222,7 +222,11 @@ impl Scenario for CodecSc {
         p.set("payload", *x.pick(&[0i64, 1, 31, 32, 33, 127, 128, 200, if tier == Tier::Thorough { 65536 } else { 4096 }]));
         p.set("pick", (index / 2) as i64);
         p.steps.push(Step::new(class, &[index as i64]));
-        if class == "vault" {
+        if class == "vault-big" {
+            // the payload-carrying types with very large payloads (sizes at which framing / size limits change)
+            p.set("payload", [(1i64 << 24) - 5, (1 << 24) + 1, (1 << 21) + 3, 172_029, (1 << 22) - 4, (1 << 23) + 1][(index / 2 % 6) as usize]);
+        }
+        if class == "vault" || class == "vault-big" {
             if x.chance(2, 3) {
                 let at = x.range(1, 200) as i64;
                 p.faults.push(Step::new("crash", &[0, at, x.below(3) as i64]));
@@ -236,7 +240,7 @@ impl Scenario for CodecSc {
     }
     fn run(&self, plan: &Plan, env: &Env, rec: &mut Rec) {
         match plan.class.as_str() {
-            "vault" => run_vault(plan, env.cur, rec),
+            "vault" | "vault-big" => run_vault(plan, env.cur, rec),
             "byz-encoder" => run_byz_encoder(plan, env.cur, rec),
             "random-bytes" => run_random_bytes(plan, env.cur, rec),
             "hostile-decoders" => run_hostile_decoders(plan, env.cur, rec),
@@ -256,7 +260,12 @@ fn to_codec(rec: &mut Rec, lib: &dyn Lib, g: Grp, s: &Specimen, c: Codec) -> Out
 // ------------------------------------------------------------------------------------------
 fn run_vault(plan: &Plan, lib: &dyn Lib, rec: &mut Rec) {
     let g = grp_of(plan.get("g"));
-    let sps = specimens(rec, lib, g, plan.seed, plan.get("payload") as usize);
+    let mut sps = specimens(rec, lib, g, plan.seed, plan.get("payload") as usize);
+    let big = plan.class == "vault-big";
+    if big {
+        // only the types that carry the payload, one specimen each
+        sps.retain(|s| matches!(s.ty, Ty::SignCryptCiphertext | Ty::TimeCryptCiphertext) && s.label.starts_with("Basic"));
+    }
     let mut x = Xo::derive(plan.seed, &[0xC0DF]);
     let (v1, v2) = (0usize, 1usize);
     let mut c = Courier::new(plan.seed, 2);
@@ -265,7 +274,7 @@ fn run_vault(plan: &Plan, lib: &dyn Lib, rec: &mut Rec) {
     // 1. vault 1 persists every specimen in every codec it offers (write, then sync)
     let mut stored: Vec<(usize, Codec, String)> = vec![];
     for (i, s) in sps.iter().enumerate() {
-        for cd in codecs_of(s.ty) {
+        for cd in codecs_of(s.ty).into_iter().filter(|c| !big || matches!(c, Codec::Bytes | Codec::BytesBox | Codec::Bare | Codec::JsonReader)) {
             let key = format!("{}:{}:{}", i, s.ty.name(), cd.name());
             let enc = c.at(v1, || to_codec(rec, lib, g, s, cd));
             let enc2 = to_codec(rec, lib, g, s, cd);
